@@ -38,6 +38,12 @@
    all others are written) plus hand-built trees with several sibling
    sub-directories.  Clause CallRaised: anonymize_files / main must not let a
    per-file error escape (anonymize_file may: its contract is to raise).
+8. Names derived from other names: stale output directories hold unrelated
+   <output>.tmp/.bak/~/.orig/.new files (must stay byte-identical); input
+   trees with X next to X.tmp/.bak/~ in both listing orders; several
+   single-file calls into one directory.  Single-file mode also with names
+   that start with a dot (nothing is "hidden" when the file is named
+   explicitly) and with directories containing spaces.
 """
 import concurrent.futures
 import itertools
@@ -101,7 +107,7 @@ def expected_keys(maxfiles, withenv, withsingle):
                     for e in esubs:
                         keys.add(("tree", p, e, files))
     if withsingle:
-        for nm in NAMES[:4]:
+        for nm in NAMES:              # a leading dot hides nothing in single-file mode
             for f in FAULTS[:3]:
                 for p in ("absent", "stale"):
                     for e in (False, True):
@@ -184,7 +190,8 @@ def worker_main(jobfile, outfile, fsroot):
     groups = json.load(open(jobfile, encoding="utf-8"))
     with open(outfile, "w", encoding="utf-8") as fh:
         for g in groups:
-            fn = {"iso": W.run_iso, "rel": W.run_rel, "blk": W.run_blocked}.get(g.get("kind"), W.run_group)
+            fn = {"iso": W.run_iso, "rel": W.run_rel, "blk": W.run_blocked, "sib": W.run_siblings,
+                  "seq": W.run_sequence}.get(g.get("kind"), W.run_group)
             res = fn(g, fsroot, common.REPO)
             fh.write(json.dumps(res) + "\n")
 
@@ -194,7 +201,7 @@ def run_groups(groups, nproc=common.NPROC):
     shards = [[] for _ in range(nproc)]
     # balance by number of executions
     loads = [0] * nproc
-    cost = lambda g: (8 * len(g["entries"]) if g.get("kind") == "iso" else 2 * len(g["entries"]) if g.get("kind") in ("rel", "blk") else
+    cost = lambda g: (8 * len(g["entries"]) if g.get("kind") == "iso" else 2 * len(g["entries"]) if g.get("kind") in ("rel", "blk", "sib", "seq") else
                       sum(len(s["entries"]) + 8 * sum(e.startswith("cli") for e in s["entries"]) for s in g["scenarios"]) + 2)
     for g in sorted(groups, key=cost, reverse=True):
         j = loads.index(min(loads))
@@ -367,6 +374,13 @@ def run(pid, tier):
     bcombos = [(tr, ft, st) for tr in sorted(W.BLOCK_TREES) for ft in (("PAWN", "P") if thorough else ("PAWN",)) for st in ((False, True) if thorough else (tr == "B-two",))]
     rel_jobs += [{"kind": "blk", "gid": len(groups) + len(iso_jobs) + len(rel_jobs) + i, "tree": tr, "form": "stale-output" if st else "bare-output",
                   "feat": ft, "stale": st, "entries": ["dir", "main"]} for i, (tr, ft, st) in enumerate(bcombos)]
+    # sibling inputs X / X.tmp ... and repeated single-file calls into one directory
+    sib_shapes = sorted(W.SIB_JOBS) if thorough else ["tmp-root", "tmp-bad", "bak-root", "tilde-sub"]
+    hand = [("sib", sh, ["dir", "main"], ft) for sh in sib_shapes for ft in (("PAWN", "P") if thorough else ("PAWN",))]
+    hand += [("seq", sh, ["file", "main1", "fafile"], "PAWN") for sh in sorted(W.SEQ_JOBS)]
+    nrel = len(rel_jobs)
+    rel_jobs += [{"kind": kd, "gid": len(groups) + len(iso_jobs) + nrel + i, "tree": sh, "shape": sh, "form": "-", "feat": ft, "entries": en}
+                 for i, (kd, sh, en, ft) in enumerate(hand)]
     rel_by_gid = {j["gid"]: j for j in rel_jobs}
     # ---- 3. real runs ---------------------------------------------------------
     t0 = time.time()
@@ -380,7 +394,7 @@ def run(pid, tier):
                  "other_files_after_failing": 0, "other_files_between_failing": 0, "other_files_rewritten": 0}
     rel_execs = 0
     for go in outs:
-        if go.get("kind") in ("rel", "blk"):
+        if go.get("kind") in ("rel", "blk", "sib", "seq"):
             job = rel_by_gid[go["gid"]]
             for res_ in go["results"]:
                 rel_execs += 1
@@ -436,11 +450,13 @@ def run(pid, tier):
         if meta[ti][0] == "rel":
             _, job, res_, _ = meta[ti]
             ev = traces[ti][k]
-            fam = "relative-paths" if job["kind"] == "rel" else "blocked-output-subdirectory"
+            fam = {"rel": "relative-paths", "blk": "blocked-output-subdirectory", "sib": "sibling-inputs-with-derived-names",
+                   "seq": "repeated-single-file-calls"}[job["kind"]]
             key = "clause=%s entry=%s family=%s tree=%s form=%s" % (clause, res_["entry"], fam, job["tree"], job["form"])
             if ev.get("ev") == "file":
                 key += " fault=%s" % ev["fault"]
-            tree = W.REL_TREES[job["tree"]]["files"] if job["kind"] == "rel" else W.BLOCK_TREES[job["tree"]]
+            tree = (W.REL_TREES[job["tree"]]["files"] if job["kind"] == "rel" else W.BLOCK_TREES[job["tree"]] if job["kind"] == "blk"
+                    else W.SIB_JOBS[job["tree"]] if job["kind"] == "sib" else W.SEQ_JOBS[job["tree"]])
             what = ("%s: entry=%s input=%r output=%r options=%s tree=%s -> %s %s; files that appeared/changed elsewhere: %s; raised=%s reports=%s" %
                     (clause, res_["entry"], res_["info"].get("input_arg", "<sandbox>/in"), res_["info"].get("output_arg", "<sandbox>/out"), job["feat"], tree,
                      ev.get("id", "end-of-run"), {x: ev[x] for x in ("fault", "pre", "out", "ref", "reported", "raised") if x in ev}, res_["info"]["others_changed"],
@@ -490,10 +506,14 @@ def run(pid, tier):
     ck.notes["phase_wall"] = tm
 
     ck.notes["scenarios"] = gen_counts
+    ck.notes["derived_name_families"] = {"sibling_input_jobs": sib_shapes, "repeated_call_jobs": sorted(W.SEQ_JOBS),
+                                         "what": "inputs X and X.tmp/.bak/~ side by side (pairs kept so that the derived name is listed both before and after its "
+                                                 "base; X undecodable in the -bad jobs); 2-3 single-file calls into one directory (incl. dot names, names with spaces); "
+                                                 "stale environments of the generated scenarios now also hold <output>.tmp/.bak/~/.orig/.new bystanders"}
     ck.notes["blocked_output_subdirectory_family"] = {"jobs": len(bcombos), "trees": {k: v["blocked"] for k, v in W.BLOCK_TREES.items()},
                                                       "what": "pre-existing output directory with a regular file at the path of one or two output sub-directories "
                                                               "(first / middle / last sibling, deeper level, ancestor); also a third fault kind 'blocked' of the TLC-generated scenarios"}
-    ck.notes["relative_path_family"] = {"jobs": len(rel_jobs) - len(bcombos), "executions": rel_execs, "trees": sorted(W.REL_TREES),
+    ck.notes["relative_path_family"] = {"jobs": len(rel_jobs) - len(bcombos) - len(hand), "executions": rel_execs, "trees": sorted(W.REL_TREES),
                                         "forms": forms, "what": "anonymize_files and main called with relative input/output paths (cwd = sandbox); "
                                         "directory and file names repeat the text of the input path; judged by the ordinary per-file and end clauses"}
     ck.notes["isolation_vs_absent_family"] = dict(iso_stats, jobs=len(iso_jobs),
@@ -526,7 +546,8 @@ def replay(pid, path):
     case = json.load(open(path))["case"]
     if "rel_job" in case:
         job = dict(case["rel_job"], entries=[case["entry"]])
-        res_ = (W.run_blocked if job["kind"] == "blk" else W.run_rel)(job, tlc.subdir("fs"), common.REPO)["results"][0]
+        res_ = {"blk": W.run_blocked, "rel": W.run_rel, "sib": W.run_siblings, "seq": W.run_sequence}[job["kind"]](
+            job, tlc.subdir("fs"), common.REPO)["results"][0]
         rejected, _ = validate_traces("FilesTrace", "FilesTrace.cfg", [res_["events"]])
         for ti, (k, clause) in sorted(rejected.items()):
             print("REPLAY VIOLATION: clause=%s at %s; elsewhere: %s" % (clause, res_["events"][k].get("id", "end-of-run"), res_["info"]["others_changed"]))
